@@ -5456,7 +5456,12 @@ class Symbol:
         return (
             all(node.prompt is None for node in self.nodes)  # promptless symbols always have default value
             or (
-                (self._user_value is None or self._has_active_indirect_set)
+                (
+                    self._user_value is None
+                    or self._has_active_indirect_set
+                    # choice symbol user-set to n, but selected by the choice's default anyway: its y is a default value
+                    or (self.choice is not None and self._user_value == 0 and self.choice.selection is self)
+                )
                 and self.orig_type
                 and ((not self.choice) or self.choice._user_selection is None)
             )
